@@ -1,6 +1,7 @@
 import PynModel.Driver
 import PynModel.Core.Series
 import PynModel.Core.Group
+import PynModel.Core.Meta
 /-!
 # Line protocol, part 2: container-level operations (series constructor and histories)
 `snew <t> <rows> <sup|none>`            → `t|rows|sup|num/den`
@@ -141,12 +142,68 @@ def groupStep (toks : List String) : String :=
     | _, _, _ => "bad-op"
   | _ => "bad-op"
 
+/-! ## IntervalSets with metadata
+rows: `none` or rows joined by `,`, each row = tag values joined by `.` (`e` = the empty row)
+`tnew <st> <en> <rows>` · `tget <pairs> <rows> <ix>` · `tint <pairsA> <rowsA> <pairsB> <rowsB>` ·
+`tdiff …` · `tsplit <pairs> <rows> <size>`   → `<pairs>|<rows>` -/
+def parseRow (s : String) : Option Row :=
+  if s == "e" then some [] else
+  (s.splitOn ".").foldr (fun x acc => match x.toNat?, acc with
+    | some v, some l => some (v :: l)
+    | _, _ => none) (some [])
+
+def parseRows (s : String) : Option (Option (Array Row)) :=
+  if s == "none" then some none else if s == "-" then some (some #[]) else
+  ((s.splitOn ",").foldr (fun x acc => match parseRow x, acc with
+    | some r, some l => some (r :: l)
+    | _, _ => none) (some [])).map fun l => some l.toArray
+
+def showRow (r : Row) : String := if r.isEmpty then "e" else ".".intercalate (r.map toString)
+def showRows : Option (Array Row) → String
+  | none => "none"
+  | some a => if a.size == 0 then "-" else ",".intercalate (a.toList.map showRow)
+def showT (t : TISet) : String := showPairs t.iv ++ "|" ++ showRows t.rows
+
+def metaStep (toks : List String) : String :=
+  match toks with
+  | ["tnew", st, en, rows] =>
+    match parseArr st, parseArr en, parseRows rows with
+    | some st, some en, some rows =>
+      if h : st.size = en.size then
+        if rows.all (·.size == st.size) then showT (TISet.new st en h rows) else "ERR length"
+      else "ERR assert"
+    | _, _, _ => "bad-op"
+  | ["tget", p, rows, ix] =>
+    match parsePairs p, parseRows rows, parseNatArr ix with
+    | some p, some rows, some ix =>
+      match TISet.getIdx ⟨p, rows⟩ ix with
+      | some t => showT t
+      | none => "ERR index"
+    | _, _, _ => "bad-op"
+  | [op, pa, ra, pb, rb] =>
+    match parsePairs pa, parseRows ra, parsePairs pb, parseRows rb with
+    | some pa, some ra, some pb, some rb =>
+      if op == "tint" then showT (TISet.intersect ⟨pa, ra⟩ ⟨pb, rb⟩)
+      else if op == "tdiff" then showT (TISet.diff ⟨pa, ra⟩ ⟨pb, rb⟩)
+      else "bad-op"
+    | _, _, _, _ => "bad-op"
+  | ["tsplit", p, rows, size] =>
+    match parsePairs p, parseRows rows, size.toInt? with
+    | some p, some rows, some size => showT (TISet.split ⟨p, rows⟩ size)
+    | _, _, _ => "bad-op"
+  | _ => "bad-op"
+
 def stepAll (line : String) : String :=
   let toks := (line.trimAscii.toString.splitOn " ").filter (· ≠ "")
   match toks with
   | "snew" :: _ => seriesStep toks
   | "hist" :: _ => seriesStep toks
   | "ghist" :: _ => groupStep toks
+  | "tnew" :: _ => metaStep toks
+  | "tget" :: _ => metaStep toks
+  | "tint" :: _ => metaStep toks
+  | "tdiff" :: _ => metaStep toks
+  | "tsplit" :: _ => metaStep toks
   | _ => kernelStep toks
 
 end Pyn
